@@ -61,6 +61,17 @@ def corpus_defs(tier):
         _mc(_c('conv', '{"h264"}', '{"aac"}', 3, 2, 5 if q else 6), rel='equiv', facets=F_ST),
         _mc(_c('conv', '{"h265", "av1", "vp9"}', '{"opus"}', 2, 2, 4), rel='equiv', facets=F_ST),
     ])
+    # --- frag: every write/flush/query/init interleaving of the fragmented muxer ----------------
+    def fr(maxc, steps, ctss, vc='"h264"', start=0):
+        return _mc({'MaxCalls': maxc, 'Steps': '<- ' + steps, 'Ctss': '<- ' + ctss, 'FDev': '{}', 'VC': vc, 'Start0': start},
+                   module='MCFrag', invariants=('Conservation', 'SeqNumbersOK', 'SegOK'),
+                   properties=('RejectQueuesNothing', 'EmptyFlushOK'), facets=None, rel='filtered')
+    d['frag'] = dict(trace='TraceFrag', mc=[
+        fr(4 if q else 5, 'StepsA', 'CtsA'),
+        fr(3 if q else 5, 'StepsB', 'CtsB', start=9000),
+        fr(5 if q else 8, 'StepsC', 'CtsA', start=3000),
+    ] + ([] if q else [fr(6, 'StepsA', 'CtsB', start=7)]),
+        rand=[dict(gen='frag', n=200 if q else 4000, rel='filtered', facets=None)])
     return d
 
 
